@@ -18,8 +18,8 @@ import vlib
 from checks import disrupt_common as dc
 
 TICKS = (301, 450, 600)     # one logical tick of the model (retry window T = 1 unit = 600 s: timed out iff >= 2 ticks)
-NODES = ("n1", "n2")
-ENV = {"Tick", "ReplInit", "ReplVanish"}
+NODES = ("n1", "n2", "n3")
+ENV = {"Tick", "ReplInit", "ReplVanish", "CandVanish"}
 OPENERS = {"Begin": "StartCmd", "QBegin": "QueueRec", "CleanBegin": "Cleanup"}
 ACTOR = {"StartCmd": "disruption", "QueueRec": "disruption.queue", "Cleanup": "disruption", "Round": "disruption"}
 
@@ -29,7 +29,7 @@ def claim(n):
 
 
 def cluster(extra_pods=True):
-    """Two candidate nodes n1, n2 and a control node z in one dynamic pool; every node runs one small pod."""
+    """Three candidate nodes n1..n3 and a control node z in one dynamic pool; every node runs one small pod."""
     pools = [dc.pool("p")]
     nodes = [dc.node(n, "p", "medium") for n in NODES] + [dc.node("z", "p", "medium")]
     pods = [dc.pod("p-" + n["name"], n["name"]) for n in nodes] if extra_pods else []
@@ -55,13 +55,13 @@ def _calls(e, inv, world):
     if a in ("Taint", "Untaint", "CleanTaint"):
         first = {"actor": actor, "verb": "get", "kind": "Node", "name": n, "sub": "", "nth": 1}
         flt = [{"actor": actor, "verb": "get", "kind": "Node", "name": n, "sub": "", "nth": 0, "err": "Server"}]
-        if (a == "Taint") != (n in world["tainted"]):
+        if (a == "Taint") != (n in world["tainted"]) and n not in world["gone"]:
             flt.append({"actor": actor, "verb": "patch", "kind": "Node", "name": n, "sub": "", "nth": 0, "err": "Server"})
         return first, flt
     if a in ("SetReason", "ClearReason", "CleanReason"):
         first = {"actor": actor, "verb": "get", "kind": "NodeClaim", "name": claim(n), "sub": "", "nth": 1}
         flt = [{"actor": actor, "verb": "get", "kind": "NodeClaim", "name": claim(n), "sub": "", "nth": 0, "err": "Server"}]
-        if a == "SetReason" or n in world["reason"]:
+        if (a == "SetReason" or n in world["reason"]) and n not in world["gone"]:
             flt.append({"actor": actor, "verb": "patch", "kind": "NodeClaim", "name": claim(n), "sub": "status", "nth": 0, "err": "Server"})
         return first, flt
     if a == "CreateRepl":
@@ -84,12 +84,14 @@ def translate(beh, rng):
     if not isinstance(h, list):
         h = []
     steps, inv = [], None
-    world = {"tainted": set(), "reason": set()}
+    world = {"tainted": set(), "reason": set(), "gone": set()}
     order = collections.defaultdict(dict)    # command -> model replacement index -> arrival order of its successful create
 
     def env_step(e):
         if e["a"] == "Tick":
             return {"a": "Tick", "d": rng.choice(TICKS)}
+        if e["a"] == "CandVanish":
+            return {"a": "CandVanish", "node": e["x"]}
         return {"a": e["a"], "cmd": e["k"], "i": order[e["k"]].get(e["x"], 9)}
 
     def close():
@@ -102,6 +104,10 @@ def translate(beh, rng):
     for e in h:
         a = e["a"]
         if a in ENV:
+            if a == "CandVanish":     # a vanished node is only ever read (NotFound, ignored): no patch to fail
+                world["gone"].add(e["x"])
+                world["tainted"].discard(e["x"])
+                world["reason"].discard(e["x"])
             (inv["pending"] if inv is not None else steps).append(env_step(e))
         elif a == "Restart":
             if inv is not None:   # crash inside the invocation: no call after the last one it made takes effect
@@ -168,6 +174,8 @@ def select(behs, per_class, rng):
                 ev.add(e["a"] + "!")
             elif e["a"] == "Restart":
                 ev.add("Restart@" + prev)
+            elif e["a"] == "CandVanish":
+                ev.add("CandVanish@" + prev)
             elif e["a"] in ("ReplVanish", "DeleteCand", "Complete", "CleanBegin"):
                 ev.add(e["a"])
             if e["a"] not in ENV:
@@ -190,6 +198,40 @@ def mut_big_pods(pools, nodes, pods):
 
 def mut_static_pool(pools, nodes, pods):
     pools[0].update(static=True, replicas=3)
+
+
+def cand_vanish_paths():
+    """A candidate (any position of the candidate list; Node and NodeClaim, only the Node, only the NodeClaim; seen or not
+    yet seen by the informers) disappears while the command is in flight, before each way the command can end: rollback
+    because a replacement disappeared, rollback by timeout, success."""
+    P = {"a": "QueueRec", "cmd": "A"}
+    Q = {"a": "Quiescent"}
+    out = []
+    ends = {"vanish": [{"a": "ReplVanish", "cmd": "A", "i": 0}, dict(P)],
+            "timeout": [{"a": "ReplLaunch", "cmd": "A", "i": 0}, {"a": "Tick", "d": 601}, dict(P)],
+            "success": [{"a": "ReplInit", "cmd": "A", "i": 0}, dict(P)]}
+    for nc in (2, 3):
+        start = [{"a": "BuildCmd", "cmd": "A", "nodes": list(NODES[:nc]), "nrepl": 1}, {"a": "StartCmd", "cmd": "A"}, dict(P)]
+        for pos in range(nc):
+            for what in ("both", "node", "claim"):
+                for end, tail in ends.items():
+                    if what != "both" and (nc == 2 or end == "success"):
+                        continue
+                    cv = {"a": "CandVanish", "node": NODES[pos], "value": what}
+                    out.append(("cv%d-%s-%s-%s" % (nc, NODES[pos], what, end), start + [cv] + copy.deepcopy(tail) + [Q]))
+            # the informers have not seen it yet when the rollback runs
+            out.append(("cv%d-%s-lag-vanish" % (nc, NODES[pos]), start + [{"a": "CandVanish", "node": NODES[pos], "lag": True}]
+                        + [{"a": "ReplVanish", "cmd": "A", "i": 0}, dict(P, lag=True), Q]))
+        # two candidates lost, then rollback; candidate lost before the first pass
+        out.append(("cv%d-two-lost-vanish" % nc, start + [{"a": "CandVanish", "node": "n1"}, {"a": "CandVanish", "node": "n2"}]
+                    + copy.deepcopy(ends["vanish"]) + [Q]))
+    # three candidates without loss (paths of the other families have at most two)
+    s3 = [{"a": "BuildCmd", "cmd": "A", "nodes": list(NODES), "nrepl": 2}, {"a": "StartCmd", "cmd": "A"}, dict(P)]
+    out.append(("c3-r2-init", s3 + [{"a": "ReplInit", "cmd": "A", "i": 0}, dict(P), {"a": "ReplInit", "cmd": "A", "i": 1}, dict(P), Q]))
+    out.append(("c3-r2-init-vanish", s3 + [{"a": "ReplInit", "cmd": "A", "i": 0}, dict(P), {"a": "ReplVanish", "cmd": "A", "i": 1}, dict(P), Q]))
+    out.append(("c3-r2-stall", s3 + [{"a": "ReplLaunch", "cmd": "A", "i": 0}, {"a": "Tick", "d": 601}, dict(P), Q]))
+    out.append(("c3-r0", [{"a": "BuildCmd", "cmd": "A", "nodes": list(NODES), "nrepl": 0}, {"a": "StartCmd", "cmd": "A"}, dict(P), Q]))
+    return out
 
 
 def extra_paths():
@@ -329,7 +371,7 @@ def round_paths():
 
 STEP_KINDS = ("StartCmd", "QueueRec", "Cleanup", "Round")
 CTRL = {"disruption.start": "StartCmd", "disruption.queue": "QueueRec", "disruption.cleanup": "Cleanup", "disruption": "Round"}
-STATIC_NAMES = {"n1", "n2", "z", "nc-n1", "nc-n2", "nc-z", "p"}
+STATIC_NAMES = {"n1", "n2", "n3", "z", "nc-n1", "nc-n2", "nc-n3", "nc-z", "p"}
 
 
 def enumerate_calls(trace_file):
